@@ -125,6 +125,7 @@ def describe(ev):
 # which recorded-call rejections belong to which property (the reason strings of spec/Trace.tla!Why)
 WHY_PROP = {
     'accept/reject differs from the grammar': 'C01',
+    'the call panicked': 'C09',
     'parsed object differs from the vector text': 'C06',
     'Set accepts/refuses differently': 'C09',
     'Get accepts/refuses differently': 'C09',
@@ -150,6 +151,8 @@ def api_traces(ctx, prop, n):
     for v in viol:
         why = v['kind'].split(': ', 1)[1]
         p = WHY_PROP.get(why)
+        if why == 'the call panicked':
+            p = 'C01' if v['input'].get('op') == 'parse' else 'C09'
         if why == 'score differs from the specification':
             p = {'2.0': 'C05', '3.0': 'C03', '3.1': 'C03', '4.0': 'C04'}[v['version']]
         if p == prop:
